@@ -63,8 +63,9 @@ class _FuseReluClipBase(RewriteRuleClassBase, abc.ABC):
         pass
 
     def extract_min_max(self, node: ir.Node):
-        # Infer dtype from node first input
-        dtype = node.inputs[0].dtype.numpy()
+        # Infer dtype from node first input (it may be unknown when the value has no type info)
+        input_dtype = node.inputs[0].dtype
+        dtype = input_dtype.numpy() if input_dtype is not None else None
         min_clip, max_clip = None, None
 
         if len(node.inputs) > 1:
@@ -77,6 +78,13 @@ class _FuseReluClipBase(RewriteRuleClassBase, abc.ABC):
             max_clip = node.inputs[2]
             if max_clip is not None:
                 max_clip = max_clip.const_value.numpy()
+
+        if dtype is None:
+            # Clip bounds have the element type of the clipped tensor.
+            for bound in (min_clip, max_clip):
+                if bound is not None:
+                    dtype = bound.dtype
+                    break
 
         return min_clip, max_clip, dtype
 
@@ -111,6 +119,9 @@ class _FuseReluClipBase(RewriteRuleClassBase, abc.ABC):
 
             if ir.convenience.get_const_tensor(m) is None:
                 return check_result.fail(f"{m.name} is not a constant.")
+
+        if first_clip_node.inputs[0].dtype is None and not clip_min_max:
+            return check_result.fail("Element type of the clipped value is unknown.")
 
         return check_result
 
